@@ -17,7 +17,14 @@ REGISTRY = {
     "C05": "kverif.props.codec:run_c05",
     "C06": "kverif.props.faults:run_c06",
     "C07": "kverif.props.stream:run_c07",
+    "C08": "kverif.props.config:run_c08",
+    "C09": "kverif.props.index_prop:run_c09",
     "C10": "kverif.props.malformed:run_c10",
+    "C11": "kverif.props.prims:run_c11",
+    "C12": "kverif.props.prims:run_c12",
+    "C13": "kverif.props.config:run_c13",
+    "C14": "kverif.props.config:run_c14",
+    "C15": "kverif.props.immut:run_c15",
     "C17": "kverif.props.records:run_c17",
     "C19": "kverif.props.state:run_c19",
     "C18": "kverif.props.records:run_c18",
